@@ -552,6 +552,9 @@ def gen_exact(rng):
         tail = "" if own == "nd" else " " + own
         ops.append(f"idisp {dt} {enc_arr(a)} {enc_idx(ps)} {'T' if periodic else 'F'} {enc_box(boxarg)}{tail}")
         ops.append(f"idist2 {dt} {enc_arr(a)} {enc_idx(ps)} {'T' if periodic else 'F'} {enc_box(boxarg)}{tail}")
+        if rng.random() < 0.1:
+            # a single coordinate of shape (3,) is not an atom array: IndexError
+            ops.append(f"idisp {dt} {enc_arr(_coord(rng))} {enc_idx([[0, 0]])} {'T' if periodic else 'F'} {enc_box(boxarg)}")
         if rng.random() < 0.15:
             ps3 = _pairs(rng, n, 1, width=3)
             ops.append(f"idisp {dt} {enc_arr(a)} {enc_idx(ps3)} F -")
@@ -587,6 +590,8 @@ def gen_exact(rng):
         a = _arr(rng, (n,))
         amount = rng.choice([0, 1, 1, 2])
         ops.append(f"repeat {dt} {enc_arr(a)} {enc_box(boxarg)} {amount}")
+        if rng.random() < 0.15:
+            ops.append(f"repeat {dt} {enc_arr(a)} {enc_box(boxarg)} {rng.choice([-1, -2, -5])}")      # refused: ValueError
         if n:
             ops.append(f"rbox {dt} {enc_arr(a)} {enc_box(boxarg)} {rng.choice(['-', str(amount)])}")
         if n and rng.random() < 0.5:
@@ -624,7 +629,7 @@ def gen_exact(rng):
         boxarg = rng.choice([_box_for(rng, "f64")[0], _stack_boxes(rng, "f64", 2), _singular_box(rng)])
         ops.append(f"orth {enc_box(boxarg)}")
         ops.append(f"vol {enc_box(boxarg)}")
-        a = _arr(rng, (rng.choice([1, 2, 4, 8]),))
+        a = _arr(rng, (rng.choice([0, 1, 2, 4, 8]),))
         ops.append(f"centroid {dt} {enc_arr(a)}")
         ops.append("ucell90 " + " ".join(q2s(Fr(rng.randint(1, 2000), rng.choice([1, 2, 4, 8, 16]))) for _ in range(3)))
         if rng.random() < 0.5:
@@ -907,7 +912,10 @@ def _run_op(np, struc, w):
         return ("ok b:" + ";".join(enc_vec([Fr(float(c)) for c in r]) for r in box) + " "
                 + ",".join(q2s(Fr(float(x))) for x in back[:3]) + " " + flags)
     if name == "centroid":
-        return "ok " + out_arr(struc.centroid(np_arr(dec_arr(w[2]), DT[w[1]])))
+        cen = np.asarray(struc.centroid(np_arr(dec_arr(w[2]), DT[w[1]])))
+        if np.isnan(cen).all():
+            return "ok v:nan,nan,nan"          # mean of no atoms
+        return "ok " + out_arr(cen)
     return "bad-op"
 
 
@@ -1050,8 +1058,8 @@ def gen_float(rng):
                 "mparams": [rng.uniform(-math.pi, math.pi) for _ in range(6)], "seed": seed}
     if r < 0.60:
         kind, box = _float_box(rng)
-        n = rng.choice([1, 3, 6])
-        m = rng.choice([0, 0, 2])
+        n = rng.choice([1, 3, 6, 6, 6, 6, 60])
+        m = rng.choice([0, 0, 2]) if n < 50 else 0
         a1 = _farr(rng, (m, n) if m else (n,), 40)
         spread = rng.choice([0.3, 0.6, 1.0, 3.0])
         a2 = _fmap2(a1, lambda v: [v[i] + sum(rng.uniform(-spread, spread) * box[r_][i] for r_ in range(3)) for i in range(3)])
@@ -1059,14 +1067,27 @@ def gen_float(rng):
         if m and rng.random() < 0.5:
             boxes = [_float_box(rng)[1] for _ in range(m)]
         return {"kind": "f-pbc", "dt": dt, "boxkind": kind, "box": boxes if boxes else box, "a1": a1, "a2": a2,
-                "shape_mix": rng.choice(["same", "same", "single-first", "single-second"]) if not m else "same", "seed": seed}
+                "shape_mix": rng.choice(["same", "same", "single-first", "single-second"]) if not m else "same", "seed": seed,
+                # the whole system in other length units (nm, reduced units, ...): boxes from 5e-3 to 6e4
+                "scale": rng.choice([1.0, 1.0, 1.0, 1e-3, 0.1, 10.0, 1e3])}
     if r < 0.72:
         kind, box = _float_box(rng)
         n = rng.choice([1, 3, 6])
         a = [[sum(rng.uniform(-3, 4) * box[r_][i] for r_ in range(3)) for i in range(3)] for _ in range(n)]
-        return {"kind": "f-move", "dt": dt, "boxkind": kind, "box": box, "a": a, "seed": seed}
+        return {"kind": "f-move", "dt": dt, "boxkind": kind, "box": box, "a": a, "seed": seed,
+                "scale": rng.choice([1.0, 1.0, 1.0, 1e-3, 0.1, 10.0, 1e3])}
     if r < 0.82:
-        mode = rng.choice(["plain", "plain", "aniso", "aniso", "near90", "near90", "f32"])
+        mode = rng.choice(["plain", "plain", "aniso", "aniso", "near90", "near90", "f32", "invalid"])
+        if mode == "invalid":
+            # no such cell exists: the angles violate the triangle inequality, or gamma is 0 / 180 degrees
+            lens = [rng.uniform(1, 100) for _ in range(3)]
+            if rng.random() < 0.5:
+                x, y = rng.uniform(10, 80), rng.uniform(10, 80)
+                angs = [x, y, rng.choice([x + y + rng.uniform(5, 20), max(abs(x - y) - rng.uniform(3, 8), 0.5)])]
+                rng.shuffle(angs)
+            else:
+                angs = [rng.uniform(60, 120), rng.uniform(60, 120), rng.choice([0.0, 180.0])]
+            return {"kind": "f-unitcell", "lens": lens, "angs": angs, "aniso": False, "f32": False, "invalid": True, "seed": seed}
         aniso = mode == "aniso"
 
         def near90():
@@ -1397,6 +1418,31 @@ def oracle(case):
 
 
 # ---- exact cases: the property re-stated on the real code, in exact rational arithmetic
+def _singular_exact(b):
+    """is some box of `b` (numpy (3,3) or (m,3,3)) exactly singular?  exact rational determinant"""
+    import numpy as np
+    b = np.asarray(b)
+    for bb in (b.reshape(-1, 3, 3)):
+        bx = _box_exact(bb)
+        if _dotF(bx[0], _crossF(bx[1], bx[2])) == 0:
+            return True
+    return False
+
+
+def _refusal_ok(np, e, *, singular=False, shapes=None, extra=()):
+    """Is the exception `e` one the documented contract allows for this input?  LinAlgError only for an exactly singular
+    box, ValueError only for coordinate shapes numpy cannot broadcast; anything else refuses well-formed input."""
+    allowed = set(extra)
+    if singular:
+        allowed.add("LinAlgError")
+    if shapes is not None:
+        try:
+            np.broadcast_shapes(*shapes)
+        except ValueError:
+            allowed.add("ValueError")
+    return type(e).__name__ in allowed
+
+
 def _o_exact(case):
     import numpy as np
 
@@ -1412,7 +1458,9 @@ def _o_exact(case):
                     continue
                 try:
                     res = struc.displacement(a1, a2, b)
-                except Exception:
+                except Exception as e:  # noqa: BLE001
+                    if not _refusal_ok(np, e, singular=_singular_exact(b), shapes=(a1.shape, a2.shape)):
+                        v.append(("C15/displacement/rejects-valid-input", f"op `{op}`: {type(e).__name__}: {e}"))
                     continue
                 if np.asarray(res).size == 0:
                     continue
@@ -1446,7 +1494,9 @@ def _o_exact(case):
                         continue          # the coordinate variant rejects the same input (shape / singular box)
                     v.append(("C15/index_displacement/rejected-although-coordinate-variant-accepts", f"op `{op}`"))
                     continue
-                except Exception:
+                except Exception as e:  # noqa: BLE001
+                    if not _refusal_ok(np, e, singular=eff is not None and _singular_exact(eff)):
+                        v.append(("C15/index_displacement/rejects-valid-input", f"op `{op}`: {type(e).__name__}: {e}"))
                     continue
                 if must_reject:
                     v.append(("C15/index_displacement/periodic-without-box-accepted", f"op `{op}`"))
@@ -1464,7 +1514,9 @@ def _o_exact(case):
                 a, b = np_arr(dec_arr(w[2]), dt), _npbox(np, dec_box(w[3]), dt)
                 try:
                     res = struc.move_inside_box(a, b)
-                except Exception:
+                except Exception as e:  # noqa: BLE001
+                    if not _refusal_ok(np, e, singular=_singular_exact(b)):
+                        v.append(("C15/move_inside_box/rejects-valid-input", f"op `{op}`: {type(e).__name__}: {e}"))
                     continue
                 ra, rr = a.reshape(-1, a.shape[-2] if a.ndim > 1 else 1, 3), np.asarray(res).reshape(-1, a.shape[-2] if a.ndim > 1 else 1, 3)
                 for mi in range(len(ra)):
@@ -1485,7 +1537,9 @@ def _o_exact(case):
                 a, b = np_arr(dec_arr(w[2]), dt), _npbox(np, dec_box(w[3]), dt)
                 try:
                     res = struc.fraction_to_coord(struc.coord_to_fraction(a, b), b)
-                except Exception:
+                except Exception as e:  # noqa: BLE001
+                    if not _refusal_ok(np, e, singular=_singular_exact(b)):
+                        v.append(("C15/coord_to_fraction/rejects-valid-input", f"op `{op}`: {type(e).__name__}: {e}"))
                     continue
                 if not np.array_equal(res, a):
                     v.append(("C15/coord_to_fraction/not-inverse-of-fraction_to_coord", f"op `{op}`: {np.asarray(res).tolist()}"))
@@ -1494,7 +1548,9 @@ def _o_exact(case):
                 a, b = np_arr(dec_arr(w[2]), dt), _npbox(np, dec_box(w[3]), dt)
                 try:
                     res = struc.remove_pbc_from_coord(a, b)
-                except Exception:
+                except Exception as e:  # noqa: BLE001
+                    if not _refusal_ok(np, e, singular=_singular_exact(b)):
+                        v.append(("C15/remove_pbc_from_coord/rejects-valid-input", f"op `{op}`: {type(e).__name__}: {e}"))
                     continue
                 if a.shape[-2] == 0:
                     if np.asarray(res).shape != a.shape:
@@ -1530,7 +1586,9 @@ def _o_exact(case):
                 except ChildCrash as e:
                     v.append(("C15/remove_pbc/crash", f"op `{op}`: {e}"))
                     continue
-                except Exception:
+                except Exception as e:  # noqa: BLE001
+                    if not _refusal_ok(np, e, singular=_singular_exact(b)):
+                        v.append(("C15/remove_pbc/rejects-valid-input", f"op `{op}`: {type(e).__name__}: {e}"))
                     continue
                 bx = _box_exact(b)
                 ea, er = _exact(a), _exact(res)
@@ -1553,6 +1611,13 @@ def _o_exact(case):
             elif w[0] in ("repeat", "rbox"):
                 a, b = np_arr(dec_arr(w[2]), "float64"), _npbox(np, dec_box(w[3]), "float64")
                 amount = 1 if w[4] == "-" else int(w[4])
+                if amount < 0:
+                    try:
+                        struc.repeat_box_coord(a, b, amount)
+                        v.append(("C15/repeat_box_coord/negative-amount-accepted", f"op `{op}`"))
+                    except ValueError:
+                        pass
+                    continue
                 if w[0] == "repeat":
                     rep, idx = struc.repeat_box_coord(a, b, amount)
                 else:
@@ -1661,6 +1726,11 @@ def _box_fl(b):
 
 
 # ---- float cases
+def DT_NP(dt, x):
+    import numpy as np
+    return np.dtype(DT[dt]).type(x)
+
+
 def _npf(a, dt):
     import numpy as np
     return np.array(a, dtype=DT[dt])
@@ -1718,6 +1788,17 @@ def _o_geom(case):
         r2 = fn(*P[:k])
         if np.shape(r1) != np.shape(r2) or not np.array_equal(r1, r2, equal_nan=True):
             v.append((f"C15/index_{name}/differs-from-coordinate-variant", f"{np.asarray(r1).tolist()} vs {np.asarray(r2).tolist()}"))
+    # a mirror image (improper orthogonal map): distances and angles stay, every dihedral changes its sign
+    Pm = [p * np.array([-1, 1, 1], dtype=p.dtype) for p in P]
+    dist_m, ang_m, dih_m = measure(Pm)
+    for i in range(len(flat[0])):
+        if abs(float(np.asarray(dist).reshape(-1)[i]) - float(np.asarray(dist_m).reshape(-1)[i])) > 8 * eps * M:
+            v.append(("C15/distance/changes-under-reflection", f"{np.asarray(dist).reshape(-1)[i]!r} -> {np.asarray(dist_m).reshape(-1)[i]!r}"))
+        ok_cond, lmin, smin = conds[i]
+        if ok_cond:
+            h1, h2 = float(np.asarray(dih).reshape(-1)[i]), float(np.asarray(dih_m).reshape(-1)[i])
+            if _angdiff(h1, -h2) > 192 * eps * (1 + M / lmin) / smin ** 2:
+                v.append(("C15/dihedral/not-negated-by-a-reflection", f"{h1!r} -> {h2!r}"))
     # rigid motion
     motion = case["motion"]
     mp = case["mparams"]
@@ -2027,6 +2108,14 @@ def _o_collinear(case):
             if not (got2 == got or (math.isnan(got) and math.isnan(got2))):
                 v.append(("C15/index_angle/differs-from-coordinate-variant", f"{got2!r} vs {got!r}"))
         if len(v) > 3:
+            break
+        # a dihedral over collinear atoms is not defined: any number (or NaN) is acceptable, an exception is not
+        try:
+            with np.errstate(all="ignore"):
+                struc.dihedral(a - k1 * d, a, a + k2 * d, a + np.float32(1.5))
+                struc.angle(a, a, a + d)               # coinciding atoms: NaN
+        except Exception as e:  # noqa: BLE001
+            v.append(("C15/dihedral/raises-for-degenerate-geometry", f"{type(e).__name__}: {e}"))
             break
     return v
 
@@ -2612,8 +2701,9 @@ def _o_pbc(case):
     v = []
     dt = case["dt"]
     eps = EPS["f32"]          # `coord()` casts every ndarray to float32, whatever its dtype
-    a1, a2 = _npf(case["a1"], dt), _npf(case["a2"], dt)
-    box = _npf(case["box"], dt)
+    sc = case.get("scale", 1.0)
+    a1, a2 = _npf(case["a1"], dt) * DT_NP(dt, sc), _npf(case["a2"], dt) * DT_NP(dt, sc)
+    box = _npf(case["box"], dt) * DT_NP(dt, sc)
     mix = case.get("shape_mix", "same")
     if mix == "single-first":
         a1 = a1[0]
@@ -2670,7 +2760,8 @@ def _o_move(case):
     v = []
     dt = case["dt"]
     eps = EPS[dt]
-    a, box = _npf(case["a"], dt), _npf(case["box"], dt)
+    sc = case.get("scale", 1.0)
+    a, box = _npf(case["a"], dt) * DT_NP(dt, sc), _npf(case["box"], dt) * DT_NP(dt, sc)
     bx = _box_fl(box)
     det, invc = _inv_exact(bx)
     cond = _cond(bx)
@@ -2730,8 +2821,19 @@ def _o_unitcell(case):
     # a valid cell needs a positive volume
     ca, cb, cg = (math.cos(x) for x in rad)
     vol2 = 1 - ca * ca - cb * cb - cg * cg + 2 * ca * cb * cg
-    if vol2 <= 0.02:
+    if case.get("invalid") and (vol2 < -1e-3 or abs(math.sin(rad[2])) < 1e-12):
+        # there is no such cell: the function must not hand back an ordinary-looking box -- an exception or
+        # non-finite entries (what it does today) are the only acceptable answers
+        try:
+            with np.errstate(all="ignore"):
+                bad_box = np.asarray(struc.vectors_from_unitcell(*lens, *rad), dtype=float)
+        except (ValueError, ArithmeticError):
+            return []
+        if np.isfinite(bad_box).all():
+            return [("C15/vectors_from_unitcell/finite-box-for-an-impossible-cell", f"cell {lens} {angs} (1 - cos2a - cos2b - cos2g + 2 cosa cosb cosg = {vol2:.3g}) -> {bad_box.tolist()}")]
         return []
+    if vol2 <= 0.02:
+        return []          # nearly flat cells: the angles are ill-conditioned functions of the vectors (cond ~ 1/sqrt(vol2))
     if case.get("f32"):
         box = struc.vectors_from_unitcell(*[np.float32(x) for x in lens], *[np.float32(x) for x in rad])
     else:
